@@ -593,9 +593,12 @@ Fixpoint apply_updates (s : st) (w : wid) (us : list wupdate) (need : bool) : re
       apply_updates s' w r (need || n')
   end.
 Definition on_task_update (s : st) (w : wid) (us : list wupdate) : res st :=
+  (* after the repair of the lost wake-up F30: the pair only counts as a prefill update if the
+     started task is still known to the server (evaluated BEFORE the updates are applied) *)
   let is_prefill_update :=
       match us with
-      | [UFinished _; URunningPrefilled _ _] => true
+      | [UFinished _; URunningPrefilled t' _] =>
+          match find_task (c_tasks (core_of s)) t' with Some _ => true | None => false end
       | _ => false
       end in
   do (s', need) <- apply_updates s w us false;
@@ -637,6 +640,22 @@ Fixpoint send_redirected (s : st) (gs : list (wid * list (tid * N))) : res st :=
       do s' <- send_worker s target (DCompute cts);
       send_redirected s' r
   end.
+(** [on_retract_response] wakes the scheduler (repair of the lost wake-up F31) when a task went back to
+    Waiting, or when the worker is free again after the last resolved retraction. *)
+Definition retract_valid (c : core) (w : wid) (id : tid) : bool :=
+  match find_task (c_tasks c) id with
+  | Some t => match t_state t with Retracting w1 => N.eqb w w1 | _ => false end
+  | None => false
+  end.
+Definition retract_wakes (c c' : core) (w : wid) (ids : list tid) : bool :=
+  existsb (fun id => retract_valid c w id && match find_redirect (c_redirects c) id with None => true | Some _ => false end) ids
+  || (existsb (retract_valid c w) ids
+      && match find_worker (c_workers c') w with
+         | Some sw => worker_is_free sw
+                      && negb (existsb (fun t => match t_state t with Retracting w1 => N.eqb w1 w | _ => false end) (c_tasks c'))
+         | None => false
+         end).
 Definition on_retract_response (s : st) (w : wid) (ids : list tid) : res st :=
   let '(c', groups) := retract_response_states (core_of s) w ids [] in
-  send_redirected (st_core s c') groups.
+  do s' <- send_redirected (st_core s c') groups;
+  if retract_wakes (core_of s) c' w ids then Ok (ask_scheduling s') else Ok s'.
